@@ -181,20 +181,21 @@ Theorem C19_gob_roundtrip : forall (gob_enc : value -> option bytes) (gob_dec : 
 Proof. exact gob_roundtrip. Qed.
 Print Assumptions C19_gob_roundtrip.
 
-(* The full statement (every Map of JSON types) is FALSE of the faithful model: mxj
-   registers no type with encoding/gob, so a nested map or list cannot be encoded
-   (gob_env = an arbitrary encoder restricted to what gob accepts unregistered). *)
-Theorem C19_gob_nested_refuted : forall enc dec,
-  bind (map_gob (gob_env enc) (VMap [(s "a", VMap [(s "b", VStr (s "1"))])])) (new_map_gob dec) = Err EOther
-  /\ bind (map_gob (gob_env enc) (VMap [(s "a", VList [VStr (s "1")])])) (new_map_gob dec) = Err EOther.
-Proof. exact gob_nested_refuted. Qed.
-Print Assumptions C19_gob_nested_refuted.
-
-Theorem C19_gob_flat_partial : forall enc dec mv,
+(* ... for every Map of JSON types: gob_env = an arbitrary encoder restricted to what
+   encoding/gob transmits inside interface values - the basic types and the two types
+   gob.go registers in init() (fix 6a56aba; on the pinned tree nothing was registered and
+   the statement was refuted by Map{"a":{"b":"1"}}).  gob_encodable holds of every Map built
+   from strings, numbers, booleans, nil, maps and lists at any depth. *)
+Theorem C19_gob_env_roundtrip : forall enc dec mv,
   gob_encodable mv = true -> enc mv <> [] -> dec (enc mv) = Ok mv ->
   bind (map_gob (gob_env enc) mv) (new_map_gob dec) = Ok mv.
-Proof. exact gob_flat_partial. Qed.
-Print Assumptions C19_gob_flat_partial.
+Proof. exact gob_env_roundtrip. Qed.
+Print Assumptions C19_gob_env_roundtrip.
+
+Theorem C19_gob_encode_error : forall (gob_enc : value -> option bytes) (gob_dec : bytes -> res value) mv,
+  gob_enc mv = None -> bind (map_gob gob_enc mv) (new_map_gob gob_dec) = Err EOther.
+Proof. exact gob_encode_error. Qed.
+Print Assumptions C19_gob_encode_error.
 
 (* ---------------------------------------------------------------- Copy *)
 
@@ -256,6 +257,7 @@ Example C19_truncation_hypotheses_satisfiable :
 Proof. exact ex_truncation. Qed.
 
 Example C19_gob_copy_instances :
+  gob_encodable (VMap [(s "a", VMap [(s "b", VStr (s "1"))]); (s "l", VList [VStr (s "1"); VMap []; VList []])]) = true /\
   gob_encodable (VMap [(s "a", VStr (s "x")); (s "b", VFlt (s "1.5")); (s "c", VBool true)]) = true /\
   json_post (s "{""a"":""<>&""}") = s "{""a"":""<>&""}".
-Proof. split; vm_compute; reflexivity. Qed.
+Proof. repeat split; vm_compute; reflexivity. Qed.
